@@ -1707,9 +1707,11 @@ PPL::Grid::simplify_using_context_assign(const Grid& y) {
     // Search for a congruence of `y' that is not a tautology.
     PPL_ASSERT(y.congruences_are_up_to_date());
     Grid gr(x.space_dim, UNIVERSE);
+    bool found = false;
     for (dimension_type i = y.con_sys.num_rows(); i-- > 0; ) {
       const Congruence& y_con_sys_i = y.con_sys[i];
       if (!y_con_sys_i.is_tautological()) {
+        found = true;
         // Found: we obtain a congruence `c' contradicting the one we
         // found, and assign to `x' the grid `gr' with `c' as
         // the only congruence.
@@ -1732,7 +1734,11 @@ PPL::Grid::simplify_using_context_assign(const Grid& y) {
         }
       }
     }
-    m_swap(gr);
+    // Note: if `y' is the universe, no grid but the empty one has
+    // an empty intersection with it: `x' is left as is.
+    if (found) {
+      m_swap(gr);
+    }
     PPL_ASSERT(OK());
     return false;
   }
